@@ -967,7 +967,8 @@ htp_status_t htp_connp_REQ_IDLE(htp_connp_t * connp) {
     if (connp->in_tx == NULL) return HTP_ERROR;
 
     // Change state to TRANSACTION_START
-    htp_tx_state_request_start(connp->in_tx);
+    htp_status_t rc = htp_tx_state_request_start(connp->in_tx);
+    if (rc != HTP_OK) return rc;
 
     return HTP_OK;
 }
